@@ -740,9 +740,12 @@ class assert_has_attr(RuntimeAssertionFeedback):
     _expected_verb = "the object to contain"
     _inverse_operator = "did not contain"
 
-    def condition(self, obj, attr, exact_strings):
-        """ Tests if the regex does not match the text """
-        return hasattr(obj.value, attr.value)
+    def __init__(self, obj, attr, **kwargs):
+        super().__init__(SandboxedValue(obj), ExactValue(attr), **kwargs)
+
+    def condition(self, obj, attr):
+        """ Tests if the object does not have the attribute """
+        return errors(obj) or not hasattr(obj.value, attr.value)
 
 
 class assert_has_variable(RuntimeAssertionFeedback):
